@@ -119,6 +119,7 @@ func (e *Engine) siteEvent(st *State, fr *Frame, sel, name string, vars map[stri
 		if r.Sel != sel || !matchName(name, r.Pat) {
 			continue
 		}
+		r.Fired++
 		env := &Env{e: e, st: st, old: e.entryOf(fr), fr: fr, site: vars, pkg: fr.fn.Pkg.Pkg}
 		switch r.Action {
 		case "assert":
@@ -286,11 +287,27 @@ func (e *Engine) checkAccess(st *State, fr *Frame, loc *Loc, write bool, pos tok
 		e.checkFrame(st, fr, cls, pos)
 	}
 	g, ok := e.guardFor(cls, write)
-	if !ok {
-		return
-	}
 	uc := e.unitContract(fr)
 	if uc != nil && uc.InitPhase && !st.spawned {
+		return
+	}
+	if !ok {
+		// fields of a type shared between goroutines must be classified: guarded, immutable after construction, or declared unsync
+		if e.spec.SharedTypes[typeKey(loc.Root)] {
+			_, unsync := e.spec.Unsync[cls]
+			_, anyGuard := e.guardFor(cls, true)
+			switch {
+			case e.spec.Immutable[cls]:
+				if write {
+					e.oblige(st, "guard", "write to immutable shared field "+cls, "false", []string{"C14"}, pos)
+				}
+			case unsync || anyGuard:
+			default:
+				if _, isMutex := e.lockClassOfField(cls); !isMutex {
+					e.oblige(st, "guard", "unclassified shared field "+cls, "false", []string{"C14"}, pos)
+				}
+			}
+		}
 		return
 	}
 	key := e.lockKeyFor(loc, g.Lock)
@@ -741,7 +758,12 @@ func (e *Engine) applyContract(st *State, fr *Frame, ct *Contract, name string, 
 			}
 		}
 	} else if !ct.Extern {
-		e.havocAll(st)
+		if fn != nil && len(fn.Blocks) > 0 {
+			// no declared frame: infer what the callee (transitively) may write from its current code
+			e.applyMods(st, fr, e.fnMods(fn))
+		} else {
+			e.havocAll(st)
+		}
 	}
 	for _, a := range args {
 		e.escapeClosure(st, a, map[*ssa.Function]bool{})
@@ -1526,4 +1548,84 @@ func (e *Engine) globalMutable(arr string) bool {
 		}
 	}
 	return false
+}
+
+// lockClassOfField: mutex / once fields are synchronisation objects themselves
+func (e *Engine) lockClassOfField(cls string) (string, bool) {
+	parts := strings.SplitN(cls, ".", 2)
+	if len(parts) != 2 {
+		return "", false
+	}
+	t := e.namedType(parts[0])
+	if t == nil {
+		return "", false
+	}
+	if st, ok := t.Underlying().(*types.Struct); ok {
+		for i := 0; i < st.NumFields(); i++ {
+			if st.Field(i).Name() == parts[1] {
+				k := typeKey(st.Field(i).Type())
+				if k == "sync.Mutex" || k == "sync.Once" || k == "sync.RWMutex" {
+					return k, true
+				}
+			}
+		}
+	}
+	return "", false
+}
+
+// fnMods: the heap footprint a function may write, computed syntactically over its body and its callees.
+func (e *Engine) fnMods(fn *ssa.Function) *modSet {
+	if ms, ok := e.fnModCache[fn]; ok {
+		return ms
+	}
+	ms := newModSet()
+	e.fnModCache[fn] = ms // recursion guard
+	e.scanMods(ms, fn, nil, map[*ssa.Function]bool{fn: true}, false)
+	if ms.dyn {
+		root := fn
+		for root.Parent() != nil {
+			root = root.Parent()
+		}
+		var walk func(f *ssa.Function)
+		walk = func(f *ssa.Function) {
+			for _, a := range f.AnonFuncs {
+				sub := newModSet()
+				e.scanMods(sub, a, nil, map[*ssa.Function]bool{a: true}, false)
+				ms.merge(sub)
+				walk(a)
+			}
+		}
+		walk(root)
+	}
+	return ms
+}
+
+// checkClassified: taking the address of a field of a goroutine-shared type that has no synchronisation class
+// (guarded / immutable / unsync / a mutex itself) is reported: new shared state must declare how it is protected.
+func (e *Engine) checkClassified(st *State, fr *Frame, loc *Loc, pos token.Pos) {
+	if loc.Kind != LHeap || !e.spec.SharedTypes[typeKey(loc.Root)] {
+		return
+	}
+	for _, o := range e.freshObjs {
+		if o == loc.Obj {
+			return
+		}
+	}
+	cls := e.fieldClass(loc)
+	if cls == "" {
+		return
+	}
+	if uc := e.unitContract(fr); uc != nil && uc.InitPhase && !st.spawned {
+		return
+	}
+	if _, ok := e.guardFor(cls, true); ok {
+		return
+	}
+	if _, ok := e.spec.Unsync[cls]; ok || e.spec.Immutable[cls] {
+		return
+	}
+	if _, isMutex := e.lockClassOfField(cls); isMutex {
+		return
+	}
+	e.oblige(st, "guard", "unclassified shared field "+cls, "false", []string{"C14"}, pos)
 }
